@@ -267,6 +267,63 @@ def check_equivariance(scn, rng, ref_cache, perm=None):
     return out
 
 
+def single_pixel(scn, py, px):
+    """The scenario restricted to one pixel (cube and every secondary raster); no pair, no pipeline."""
+    s = json.loads(json.dumps({k: v for k, v in scn.items() if k not in ("pair", "pipe")}))
+    cube = S.j2arr(scn["cube"])
+    s["cube"] = S.arr2j(cube[:, py : py + 1, px : px + 1].copy())
+    for name in s.get("secondary") or {}:
+        a = S.j2arr(scn["secondary"][name])
+        s["secondary"][name] = S.arr2j(a[py : py + 1, px : px + 1].copy())
+    s["chunks"] = {"y": [1], "x": [1]}
+    s["time_chunks"] = None
+    s["secondary_chunks"] = None
+    return s
+
+
+def check_failure_locality(scn):
+    """O13: the in-memory call on the whole cube raises E.  If the same call on one pixel alone raises
+    the same E while on another pixel alone it computes, one pixel's series decides the outcome of
+    every other pixel (and, on dask-backed data, of exactly those that share its block) -- the
+    clause "each pixel's result depends only on that pixel's own series" for outcomes that are
+    exceptions.  A refusal that does not depend on pixel data (arguments, time axis, attributes)
+    raises for every pixel alone and is never flagged; neither is a cube no single pixel of which
+    raises."""
+    from . import runner
+
+    if scn["op"] in ("zonal_mean", "dekad") or scn["params"].get("dimension") or scn["params"].get("dim"):
+        return []  # not per-pixel operations / the series runs along y
+    T, Y, X = scn["cube"]["shape"]
+    if Y * X < 2:
+        return []
+    base = {k: v for k, v in scn.items() if k not in ("pair", "pipe")}
+    _, exc, _ = runner.eager_reference(base)
+    if exc is None:
+        return []  # (the pipeline consumer raised, not the operation)
+
+    def sig(e):
+        return (type(e).__name__, str(e)[:80])
+
+    raised, computed = [], []
+    pixels = [(py, px) for py in range(Y) for px in range(X)]
+    step = max(1, len(pixels) // 40)
+    for py, px in pixels[::step]:
+        _, e, _ = runner.eager_reference(single_pixel(scn, py, px))
+        if e is None:
+            computed.append((py, px))
+        elif sig(e) == sig(exc):
+            raised.append((py, px))
+    if raised and computed:
+        return [
+            (
+                "pixel-failure-aborts-others",
+                f"in-memory call on the {Y}x{X} cube raises {sig(exc)[0]}: {sig(exc)[1]}; pixel (y={raised[0][0]}, x={raised[0][1]}) alone raises the same, "
+                f"pixel (y={computed[0][0]}, x={computed[0][1]}) alone computes ({len(raised)} raising / {len(computed)} computing pixels checked)",
+            )
+        ]
+    return []
+
+
 def check_layout_invariance(scn, ref_cache):
     """O9: the result under the scenario's dimension order (and its secondary rasters' own dim
     orders) equals, matched by dimension NAME, the result under the canonical (time, y, x) layout."""
@@ -694,10 +751,19 @@ def job_op(job):
                     hv = []
                 agg.bump("probes", "call_histories_checked")
                 rr.violations.extend(hv)
+        if rr.outcome == "both-raise" and not rr.violations:
+            # O13 (no PRNG draw: the schedule of every other run stays what it was)
+            try:
+                fv = check_failure_locality(scn)
+            except Exception as e:  # noqa: BLE001
+                agg.d["harness"].append(f"{key}: failure-locality: {type(e).__name__}: {e}")
+                fv = []
+            agg.bump("probes", "failure_locality_checked")
+            rr.violations.extend(fv)
         if rr.violations:
 
             def minimiser(vclass, budget, scn=scn, cfg=cfg, rr=rr):
-                if vclass in ("pixel-equivariance", "layout-invariance") or vclass.startswith("mixed-backing") or vclass.startswith("history-"):
+                if vclass in ("pixel-equivariance", "layout-invariance", "pixel-failure-aborts-others") or vclass.startswith("mixed-backing") or vclass.startswith("history-"):
                     return None
                 mcache = {}
 
@@ -853,6 +919,8 @@ def replay_file(path):
         ref, ref_exc, _ = runner.eager_reference(payload["scenario"])
         cache["ref"] = (ref, ref_exc)
         rr.violations.extend(check_history(payload["scenario"], payload["key"], cache))
+    if wl == "A" and want == "pixel-failure-aborts-others":
+        rr.violations.extend(check_failure_locality(payload["scenario"]))
     if wl == "A" and want == "pixel-equivariance":
         cache = {}
         ref, ref_exc, _ = runner.eager_reference(payload["scenario"])
@@ -1014,6 +1082,7 @@ def write_evidence(tier, seed, d, wall, nviol, harness, jobs):
             "pair_shares_lazy_cube",
             "call_histories_checked",
             "tee_computed_in_one_graph",
+            "failure_locality_checked",
         )
         if not probes.get(p)
     ]
